@@ -146,14 +146,14 @@ def post_c04(ctx, spec, events, crashes):
 SPECS["C04"] = v2spec(
     "TestVerifC04",
     title="Match is deterministic and side-effect free",
-    rule=("8 child processes (different map-iteration seeds), each one configuration {corpus order: directory walk/sorted/reversed/shuffled} x {plain, +200 unrelated documents} x "
+    rule=("9 child processes (different map-iteration seeds; the ninth uses assets.DefaultClassifier() obtained after another instance was created and extended), each one configuration {corpus order: directory walk/sorted/reversed/shuffled} x {plain, +200 unrelated documents} x "
           "{trace off, trace all phases into a discarding Tracer, trace to stdout}, answer the same seeded query list (every document planted and edited, concatenations, scenario files, "
           "tie-prone inputs: token-identical documents under two names, several Copyright lines, the same document twice). Each query is issued 3x per process with Match/MatchFrom/Normalize "
           "calls on other inputs in between; results are compared in returned order with confidence bits, in-process and (offline) across all processes; argument slices are hashed before/after each call. "
           "Non-trivial = query with at least one match; distinct = distinct query."),
     floor_evals={"quick": 2000, "thorough": 6000},
     floor_nontrivial={"quick": 300, "thorough": 800},
-    shards={"quick": 8, "thorough": 8}, workers={"quick": 1, "thorough": 1},
+    shards={"quick": 9, "thorough": 9}, workers={"quick": 1, "thorough": 1},
     timeout={"quick": 1800, "thorough": 3 * 3600},
     post=post_c04,
 )
